@@ -487,6 +487,9 @@ func checkOutput(st *Stats, kind string, src string, c *cfg, r result) verdict {
 	if c.goOptions().UnsupportedJSFeatures.Has(compat.UnicodeEscapes) {
 		c3.Supported["unicode-escapes"] = false
 	}
+	if c.goOptions().UnsupportedJSFeatures.Has(compat.InlineScript) {
+		c3.Supported["inline-script"] = false // whether "</script" is escaped, a printer choice
+	}
 	if c.goOptions().UnsupportedJSFeatures.Has(compat.FunctionOrClassPropertyAccess) {
 		c3.Supported["function-or-class-property-access"] = false // parenthesises (class{}).p, a printer choice
 	}
@@ -513,6 +516,9 @@ func checkOutput(st *Stats, kind string, src string, c *cfg, r result) verdict {
 			sc = "contradictory-supported-override:" + k
 		} else if len(b.errors) > 0 && strings.Contains(b.errors[0].Text, "Cannot use \"new.target\" here") && strings.Contains(src, "new.target") {
 			sc = "new-target-in-lowered-static-initializer"
+		} else if len(b.errors) > 0 && strings.Contains(b.errors[0].Text, "Unexpected \"super\"") && strings.Contains(src, "super") &&
+			strings.Contains(r.code, "__asyncGenerator(") && !c.goOptions().UnsupportedJSFeatures.Has(compat.AsyncAwait) {
+			sc = "super-in-lowered-async-generator"
 		}
 		failOnce(st, "output-does-not-parse", map[string]interface{}{"kind": kind, "source": src, "config": c, "scenario": sc},
 			map[string]interface{}{"output": clip(r.code, 1500), "errors": msgTexts(b.errors)}, "output parses")
@@ -757,7 +763,16 @@ func randomConfig(r *Rng, wide bool) *cfg {
 		k := 1 + r.Intn(3)
 		for i := 0; i < k; i++ {
 			n := allNames[r.Intn(len(allNames))]
-			c.Supported[keyByName[n]] = r.Bool()
+			v := r.Bool()
+			if !wide && !v && notTransformable[n] {
+				// esbuild cannot transform these (they are rejected with "not supported yet") and its
+				// own scaffolding (wrappers, helpers, lowered code) assumes them: switching one off is
+				// outside "features esbuild documents as transformable".  They are still covered by the
+				// per-probe supported:false loop, the table/pipeline correspondence and the corpus replay
+				// of the lowering_closed_refuted witness.
+				v = true
+			}
+			c.Supported[keyByName[n]] = v
 		}
 		if !wide {
 			c.makeCoherent()
@@ -765,6 +780,9 @@ func randomConfig(r *Rng, wide bool) *cfg {
 	}
 	return c
 }
+
+var notTransformable = map[string]bool{"ArraySpread": true, "Class": true, "ConstAndLet": true, "DefaultArgument": true, "Destructuring": true,
+	"ForOf": true, "Generator": true, "NewTarget": true, "ObjectAccessors": true, "ObjectExtensions": true, "RestArgument": true, "NestedRestBinding": true}
 
 // impliedBy[Y] = the features X such that esbuild treats "X unsupported" as
 // implying "Y unsupported" (discovered from the real applyOptionDefaults).
